@@ -354,7 +354,7 @@ def make_cases(rng, lang, n, thorough):
                 multi_file=multi, crates=["alpha", "beta_x"],
                 # one case in three draws its doc strings from characters instead of words: line breaks of every kind inside
                 # #[doc = ".."] strings (a line comment that is not closed at one of them swallows or spills code)
-                doc_alphabet=["a", "b", " ", "x", "\r", "\n", "\t", "'", "z"] if i % 3 == 1 else None)
+                doc_alphabet=["a", "b", " ", "x", "\r", "\n", "\t", "'", "z", "*/", "/*", "*", "/", '"""', "\\"] if i % 3 == 1 else None)
         cfg = config_for(rng, lang)
         feats = {}
         if not multi:
